@@ -783,14 +783,14 @@ theorem DInv.pre {T d : Nat} {s : Layout} {down : List Coord} (h : DInv T d s do
 /-! ## the third stage of a tick -/
 
 theorem decidesOn_some {w : Waiting} {len k n : Nat} {q : List Queued} (h : C17.decidesOn w len k q = some n) :
-    n = k ∨ n = C17.seenTaps w q := by
+    n = k ∨ n ≤ C17.seenTaps w q := by
   unfold C17.decidesOn at h
   split at h
   · cases h
   · split at h
     · injection h with h; exact Or.inl h.symm
     · split at h
-      · injection h with h; exact Or.inr h.symm
+      · injection h with h; exact Or.inr (by rw [← h]; exact Nat.min_le_left _ _)
       · cases h
 
 /-- an undecided tick of the `TapDance` arm: either the queue length is what it was when last read —
@@ -917,9 +917,8 @@ theorem DInv.main {T d : Nat} {s : Layout} {down : List Coord} (h : DInv T d s d
           have hn1 : n - 1 ≤ C17.nPr w s.queue := by
             rcases decidesOn_some hd with hh | hh
             · rw [hh]; exact c5
-            · rw [hh]
-              have := nPr_takeWhile_le w (fun x => !C17.otherPress w x) s.queue
-              show 1 + C17.nPr w (s.queue.takeWhile fun x => !C17.otherPress w x) - 1 ≤ C17.nPr w s.queue
+            · have := nPr_takeWhile_le w (fun x => !C17.otherPress w x) s.queue
+              have hs : C17.seenTaps (C17.cd w) s.queue = 1 + C17.nPr w (s.queue.takeWhile fun x => !C17.otherPress w x) := rfl
               omega
           rw [C17.FUEL_two, doAction_simple 3998 _ a hok.1] at ht
           simp only [] at ht
